@@ -27,7 +27,7 @@ CLAIMED = {
                 "(tuples up to family renaming where the menu is closed under renaming, restricted menus in full; inconsistent orders kept) + prescribed root orders; thorough adds <=3x<=3x3 families, "
                 "4x<=3x2 families, 4x<=2x subsequences of abc, each with its coherent cost menu, ext_spfs and base_spfs, ALL and ANY. "
                 "quick also 4-leaf chains on one species x subsequences of abc, 5-leaf chains on one species x {ac, bc, abc, b} with dup = 0, FOUR families (every tuple of subsequences of abcd on 3 leaves; {a, d, abd, acd, abcd} on the three 5-leaf shapes), one family on 4x2 and 4x4 leaves with transfers at 3-6 times the unit price and on 4x3 leaves at the default prices, six loosely constrained families with 120 compatible root orders, prescribed roots with a family no leaf carries, hgt = 0, and session "
-                "slices (one input object updated in place, with and without a prescribed root). On one input in three the other solvers run on the same input object before the solve, or after it (what was returned must still cost the same). Input presentation varies with the input: leaf "
+                "slices (one input object updated in place, with and without a prescribed root). On about one input in nine the other solvers run on the same input object before the solve, or after it (what was returned must still cost the same). Input presentation varies with the input: leaf "
                 "dictionaries in three orders, syntenies typed as lists / tuples, prefix-related multi-character family names, same-label ancestors. "
                 "Oracle: Bellman over (species, subsequence) for every compatible root order; base: LCA mapping fixed.",
         "design_ref": "6 (C02), 4.2-4.4, 5",
